@@ -2597,6 +2597,9 @@ class op(object):
                     e0 = matrix(0.0, (len(i),1))
                     e0[0] = 1.0
                     mc = e0 * mc
+                elif len(i) == 1 != len(c):
+                    # a vector inequality obtained from a scalar one
+                    mc = sum(mc)
                 mmap[i] = mmap[i] + mc
             if len(i) == 1 != len(mmap[i]):
                 mmap[i] = sum(mmap[i])
